@@ -94,6 +94,26 @@ def run(ctx):
                               "back_ok": back[0] == "ok", "back_net": back[1][0] if back[0] == "ok" else "mainnet", "back_ver": back[1][1] if back[0] == "ok" else -1,
                               "back_prog": B(back[1][2]) if back[0] == "ok" else []})
                 ctx.nontriv(("segwit", ver, plen if plen in (2, 20, 32, 40) else "len", net))
+                # the same data part under the OTHER checksum constant (a v1+ address from a BIP173-only encoder, a v0 address
+                # with a Bech32m checksum): well-formed, but not an address of this witness version
+                if t[0] == "ok" and (plen in (20, 32) or ver in (0, 1, 2, 16)):
+                    text = t[1]
+                    sep = text.rindex("1")
+                    hrp, data = text[:sep], [ALPH.index(ch) for ch in text[sep + 1:-6]]
+                    other = 0x2bc830a3 if ver == 0 else 1
+                    vals = [ord(ch) >> 5 for ch in hrp] + [0] + [ord(ch) & 31 for ch in hrp] + data + [0] * 6
+                    chk = 1
+                    for v_ in vals:
+                        top = chk >> 25
+                        chk = ((chk & 0x1ffffff) << 5) ^ v_
+                        for i_, g_ in enumerate((0x3b6a57b2, 0x26508e6d, 0x1ea119fa, 0x3d4233dd, 0x2a1462b3)):
+                            if (top >> i_) & 1:
+                                chk ^= g_
+                    chk ^= other
+                    cand = hrp + "1" + "".join(ALPH[d_] for d_ in data) + "".join(ALPH[(chk >> (5 * (5 - i_))) & 31] for i_ in range(6))
+                    got = outcome(BE.decode_bech32, cand)
+                    cases.append({"id": "sc%d" % k, "kind": "segwit-const", "text": T(cand), "accepted": got[0] == "ok"})
+                    ctx.nontriv(("segwit-other-constant", ver if ver < 2 else "v2+"))
                 # substitutions of sampled addresses
                 if t[0] == "ok" and plen in (20, 32) and ver in (0, 1, 16) and net in ("mainnet", "regtest"):
                     text = t[1]
